@@ -178,7 +178,10 @@ func (m *machine) unbind(t *rapid.T) {
 
 func TestBindings(t *testing.T) {
 	rapid.Check(t, world.Prop(func(t *rapid.T) {
-		m := &machine{w: regs.New(3), binds: map[regs.Key]bool{}}
+		// up to two of the three peers have not announced themselves yet
+		silent := rapid.SampledFrom([]int{0, 0, 0, 1, 2}).Draw(t, "unannouncedPeers")
+		world.Label(fmt.Sprintf("unannouncedPeers/%d", silent))
+		m := &machine{w: regs.NewWithUnannounced(3, silent), binds: map[regs.Key]bool{}}
 		defer m.w.Teardown()
 		t.Repeat(map[string]func(*rapid.T){
 			"bind":   m.bind,
